@@ -573,6 +573,8 @@ func (w *worker) evalTree(idx int64, t *tree) {
 			w.compare(clMount, ci, &w.oP, &w.oG)
 			w.e.runAll(t, ti, c, progMountCfg, nil, &w.oD)
 			w.compare(clMountCfg, ci, &w.oD, &w.oG)
+			w.e.runAll(t, ti, c, progMountRebuild, nil, &w.oD)
+			w.compare(clMountRebuild, ci, &w.oD, &w.oG)
 			w.e.runAll(t, ti, c, progMountLate, nil, &w.oL)
 			w.compareLate(ci)
 			w.l.Add("mount_evaluations", 1)
@@ -952,6 +954,10 @@ func (w *worker) evalClause(t *tree, c rcfg, clause string, fn func(h diffHit, k
 		w.e.runAll(t, ti, c, progMountCfg, nil, &w.sA)
 		w.e.runAll(t, ti, c, progGroup, nil, &w.sB)
 		run(&w.sA, &w.sB, nil)
+	case clMountRebuild:
+		w.e.runAll(t, ti, c, progMountRebuild, nil, &w.sA)
+		w.e.runAll(t, ti, c, progGroup, nil, &w.sB)
+		run(&w.sA, &w.sB, nil)
 	case clMountLate:
 		w.e.runAll(t, ti, c, progMountLate, nil, &w.sA)
 		w.e.runAll(t, ti, c, progGroup, nil, &w.sB)
@@ -1181,7 +1187,7 @@ func (w *worker) minimise(t *tree, c rcfg, clause, kind string) *sigInfo {
 		return false
 	})
 	parts := []string{clause}
-	if clause == clMount || clause == clMountCfg || clause == clMountLate || clause == clMapOrder || clause == clPhased {
+	if clause == clMount || clause == clMountCfg || clause == clMountRebuild || clause == clMountLate || clause == clMapOrder || clause == clPhased {
 		parts = append(parts, mountClass(cur))
 	}
 	if clause == clPhased {
@@ -1193,13 +1199,14 @@ func (w *worker) minimise(t *tree, c rcfg, clause, kind string) *sigInfo {
 	}
 	parts = append(parts, "min="+modePrefix()+cur.String(), "cfg="+cfgConstraint(fail))
 	pair := map[string]string{
-		clMount:     progNames[progMount] + " vs " + progNames[progGroup],
-		clMountLate: progNames[progMountLate] + " vs " + progNames[progGroup],
-		clMountCfg:  progNames[progMountCfg] + " vs " + progNames[progGroup],
-		clMapOrder:  progNames[progMount] + " under a deviating appList map order vs the default order",
-		clPhased:    progNames[progMount] + " vs " + progNames[progGroup] + ", both built in two phases: the items after || are registered after start-up and a first pass of requests, then app.RebuildTree()",
-		clFlat:      progNames[progGroup] + " vs " + progNames[progFlat],
-		clRoute:     progNames[progRoute] + " vs " + progNames[progFlat],
+		clMount:        progNames[progMount] + " vs " + progNames[progGroup],
+		clMountLate:    progNames[progMountLate] + " vs " + progNames[progGroup],
+		clMountCfg:     progNames[progMountCfg] + " vs " + progNames[progGroup],
+		clMountRebuild: progNames[progMountRebuild] + " vs " + progNames[progGroup],
+		clMapOrder:     progNames[progMount] + " under a deviating appList map order vs the default order",
+		clPhased:       progNames[progMount] + " vs " + progNames[progGroup] + ", both built in two phases: the items after || are registered after start-up and a first pass of requests, then app.RebuildTree()",
+		clFlat:         progNames[progGroup] + " vs " + progNames[progFlat],
+		clRoute:        progNames[progRoute] + " vs " + progNames[progFlat],
 	}[clause]
 	cs := map[string]any{
 		"minimal_tree":    modePrefix() + cur.String(),
@@ -1258,7 +1265,7 @@ func replay(r *core.Run, text string) {
 	}
 	bad := 0
 	for _, c := range cfgs {
-		for _, clause := range []string{clMount, clMountCfg, clMountLate, clMapOrder, clPhased, clFlat, clRoute} {
+		for _, clause := range []string{clMount, clMountCfg, clMountRebuild, clMountLate, clMapOrder, clPhased, clFlat, clRoute} {
 			w.evalClause(t, c, clause, func(h diffHit, kind string) bool {
 				bad++
 				fmt.Printf("%s | %s | %s %s | %s\n    first : %s\n    second: %s\n", c, clause, kind, h.detail, h.req, h.impl, h.ref)
